@@ -1,6 +1,7 @@
 from __future__ import absolute_import, division, unicode_literals
 
 from . import base
+from ..constants import namespaces
 
 
 class Filter(base.Filter):
@@ -136,8 +137,12 @@ class Filter(base.Filter):
             elif type == "EndTag":
                 # ... unless the parent element is one of these (the end tag
                 # would otherwise be re-parsed as closing the parent first)
-                return next["name"] not in ('a', 'audio', 'del', 'ins', 'map',
-                                            'noscript', 'video')
+                # or is not an HTML element (a p directly inside an SVG or
+                # MathML integration point: the parser ignores the foreign
+                # end tag while the p element is still open)
+                return (next["name"] not in ('a', 'audio', 'del', 'ins', 'map',
+                                             'noscript', 'video') and
+                        next.get("namespace") in (None, namespaces["html"]))
             else:
                 return type is None
         elif tagname == 'option':
